@@ -238,3 +238,21 @@ Proof. exact v1_Inv_weak. Qed.
 
 Theorem v2_valid_is_weakly_valid : forall f, v2_Inv f -> v2_WInv f.
 Proof. exact v2_Inv_weak. Qed.
+
+(* ---- readers on arbitrary file contents (no invariant assumed): an index entry is interpreted by size and offset
+   only.  Whatever the bytes are, load_tile answers `missing` or a slice that lies inside the file (possibly shorter
+   than the size the entry claims, when the file ends first); v1 additionally raises struct.error exactly when the
+   4-byte size field is cut off by the end of the data file.  Nothing else can happen. *)
+Theorem v2_reader_never_fails_on_garbage :
+  forall f s, B2 <= blen f -> slot_ok s ->
+    v2_load f s = RMissing \/
+    exists off n, v2_load f s = RData (bread f off n) /\ 0 <= off /\ (n = O \/ off + Z.of_nat n <= blen f).
+Proof. exact v2_reader_total. Qed.
+
+Theorem v1_reader_on_garbage :
+  forall idx dat s, X1 <= blen idx -> slot_ok s ->
+    let off := brd idx (v1_ioff s) 5 in
+    v1_load (idx, dat) s = RMissing \/
+    (v1_load (idx, dat) s = RError /\ off <> 0 /\ blen dat < off + 4) \/
+    exists n, v1_load (idx, dat) s = RData (bread dat (off + 4) n) /\ n <> O /\ off + 4 + Z.of_nat n <= blen dat.
+Proof. exact v1_reader_total. Qed.
